@@ -1,20 +1,68 @@
-//! C06 — not implemented yet (stub).
+//! C06 — inline caches are semantically transparent: trace(P, caches on) = trace(P, caches off).
 
 use crate::driver::{CaseOut, Env, Prop, Stream, Tier};
+use crate::genp::ic::{IcOpts, generate};
+use crate::oracle::node_script;
+use crate::run::{RunCfg, diff_traces, run};
 
 pub struct C06;
+
+impl C06 {
+    fn check(&self, env: &mut Env, src: &str, nontrivial: bool, labels: Vec<&'static str>) -> CaseOut {
+        let on = run(src, &RunCfg::default());
+        let off = run(src, &RunCfg { ic_off: true, ..RunCfg::default() });
+        if off.completion.is_limit() {
+            return CaseOut::skip(src.to_string(), "boa-limit");
+        }
+        if let Some((sig, d)) = diff_traces("caches-on", &on, "caches-off", &off) {
+            return CaseOut::fail(src.to_string(), format!("ic: {sig}"), d).with_labels(labels);
+        }
+        // gc-stressed run: weak shapes in cache entries die
+        let on_gc = run(src, &RunCfg { gc_stress: 50, ..RunCfg::default() });
+        if let Some((sig, d)) = diff_traces("caches-on", &on, "caches-on+gc", &on_gc) {
+            return CaseOut::fail(src.to_string(), format!("ic+gc: {sig}"), d).with_labels(labels);
+        }
+        if env.tier == Tier::Thorough {
+            // second opinion: V8 (guards against the uncached path being wrong in the same way)
+            if let Ok(node) = env.node() {
+                if let Ok((np, nc)) = node_script(node, src) {
+                    if nc != "limit:timeout" && (np != off.prints || nc != off.completion.render()) {
+                        let k = np.iter().zip(off.prints.iter()).position(|(a, b)| a != b).unwrap_or(0);
+                        return CaseOut::fail(src.to_string(), "ic: uncached boa differs from V8", format!("first differing line {k}: boa={:?} v8={:?}\n--- boa (caches off)\n{}\n--- v8\n{}\n=> {nc}", off.prints.get(k), np.get(k), off.render(), np.join("\n"))).with_labels(labels);
+                    }
+                }
+            }
+        }
+        CaseOut::pass(src.to_string(), nontrivial).with_labels(labels)
+    }
+}
 
 impl Prop for C06 {
     fn id(&self) -> &'static str {
         "C06"
     }
-    fn streams(&self, _tier: Tier) -> Vec<Stream> {
-        vec![]
+    fn streams(&self, tier: Tier) -> Vec<Stream> {
+        let m = if tier == Tier::Quick { 1 } else { 60 };
+        vec![Stream::new("ic", 5000 * m, 400).batch(100)]
     }
     fn rule(&self) -> String {
-        "stub".into()
+        "history programs: 2-5 access-site functions (o.k read, o.k write sloppy/strict, o.length, global read, global write, super.x/super.a method call, with-scoped read) over a pool of 3-8 objects built by different routes (literals in different key order, Object.create chains of depth 1-3, class/derived instances, arrays, functions, accessors, non-writable own property, __proto__ literal, primitives, null-prototype, Proxy, frozen) and 10-60 steps that either call a site 1-4 times on an object and print the result or mutate the receiver / its prototype / the prototype's prototype / a shared intrinsic prototype / the global object (add, delete, data<->accessor, writable/enumerable flips, freeze/seal/preventExtensions, setPrototypeOf, self-replacing getter); every program ends with every site applied to every object. The same program runs with inline caches on and off (hook) and with caches on under forced collections; traces must be equal [thorough: caches-off boa also equals V8]. Non-trivial = some site ran >= 3 times before a mutation happened (warm cache, then mutation); distinct = distinct source".into()
     }
-    fn run_case(&self, _env: &mut Env, _stream: &str, _index: u64, _tape: &[u8]) -> CaseOut {
-        CaseOut::skip(String::new(), "stub")
+    fn run_case(&self, env: &mut Env, _stream: &str, _index: u64, tape: &[u8]) -> CaseOut {
+        let p = generate(tape, &IcOpts { excl_f10_proto_shape_change: !crate::props::c06::f10_fixed(), excl_f23_array_length_store: !f10_fixed(), excl_f24_shape_change_in_accessor: !f10_fixed() });
+        let mut labels = p.labels.clone();
+        if p.excluded > 0 {
+            labels.push("excluded-ic-known-findings");
+        }
+        self.check(env, &p.src, p.warm_then_mutated, labels)
+    }
+    fn run_rendered(&self, env: &mut Env, _stream: &str, rendered: &str) -> Option<CaseOut> {
+        Some(self.check(env, rendered, true, vec![]))
     }
 }
+
+/// whether the F10 exclusion can be dropped (set when the defect is repaired in /repo)
+pub fn f10_fixed() -> bool {
+    std::env::var_os("BV_F10_FIXED").is_some() || F10_FIXED
+}
+pub const F10_FIXED: bool = false;
